@@ -525,7 +525,7 @@ func (em *emitter) emitAssignmentNode(node *ast.Assignment) {
 
 		case *ast.Index:
 			exprType := em.typ(v.Expr)
-			expr := em.emitExpr(v.Expr, exprType)
+			expr := em.emitIndexedExpr(v.Expr, exprType)
 			indexType := intType
 			if exprType.Kind() == reflect.Map {
 				indexType = exprType.Key()
